@@ -68,7 +68,7 @@ func Verif_C02_Faults(withQ int) {
 	w.addPkg("p", true, "h1:new-p", nil, []string{"p.go", vBase + ".ga.go", vBase + ".gb.go"},
 		[]vTypeSpec{{name: "A", tags: vBoth}, {name: "B", tags: vBoth}})
 	pp := "example.com/m/p"
-	menu := []int{vActRender, vActNothing, vActError, vActDeferErr, vActBadSyntax, vActDeferOK}
+	menu := []int{vActRender, vActNothing, vActError, vActDeferErr, vActBadSyntax, vActDeferOK, vActPanic}
 	for _, g := range []string{"ga", "gb"} {
 		vSet(g, pp, "A", vAct(menu...))
 		vSet(g, pp, "B", vAct(vActRender, vActNothing, vActError, vActBadSyntax))
@@ -88,10 +88,19 @@ func Verif_C02_Faults(withQ int) {
 	verifsym.FSPut(sumPath, "example.com/m/p h1:old\n")
 	before := vSnapshot()
 
-	err := w.exec(all, true, nil, &vGenA{}, &vGenB{})
+	var err error
+	died := verifsym.Panics(func() {
+		err = w.exec(all, true, nil, vProtoA(), &vGenB{})
+	})
 
 	after := vSnapshot()
 	trace := verifsym.FSTrace()
+	if died {
+		// the process died part-way through the run: gengo.sum must be untouched
+		verifsym.Assert(after[sumPath] == before[sumPath], "gengo.sum rewritten by a run that died part-way (the next run would trust half-written output)")
+		verifsym.Reach("end")
+		return
+	}
 
 	// the sum file is only ever touched as the very last effects of a run, and only with All
 	sumTouched := false
@@ -204,7 +213,7 @@ func Verif_C07_Effects() {
 	verifsym.FSPut(w.root+"/go.mod", "module example.com/m\n")
 	before := vSnapshot()
 
-	err := w.exec(all, true, nil, &vGenA{}, &vGenB{})
+	err := w.exec(all, true, nil, vProtoA(), &vGenB{})
 	verifsym.Assert(err == nil, "Execute fails although no generator failed")
 
 	after := vSnapshot()
@@ -287,7 +296,7 @@ func Verif_C02_IOFaults() {
 		verifsym.FSFailOpen(sumPath)
 	}
 	src, _ := verifsym.FSGet(w.root + "/p/p.go")
-	err := w.exec(true, true, nil, &vGenA{}, &vGenB{})
+	err := w.exec(true, true, nil, vProtoA(), &vGenB{})
 	verifsym.Assert(err != nil, "an I/O failure while writing the output is not reported")
 	if which < 2 {
 		d, ok := verifsym.FSGet(sumPath)
